@@ -17,7 +17,7 @@ OUTSIDE = ["sizes beyond those listed", "objects reachable only through private 
 
 
 def bounds(tier):
-    return dict(C_D_N=(2, 1, 3))
+    return dict(C_D_N=[(2, 1, 3)] if tier == "quick" else [(2, 1, 3), (2, 2, 3), (3, 1, 4), (2, 2, 4)])
 
 
 class Frame:
@@ -72,9 +72,9 @@ class Frame:
                 ref[...] = self.B.arr("scr%d" % k, _np.shape(ref))
 
 
-def sc_gmm(B, trainer, dask):
+def sc_gmm(B, trainer, dask, size=(2, 1, 3)):
     gmm = B.mod("gmm")
-    C, D, N = 2, 1, 3
+    C, D, N = size
     o = Outcome()
     fr = Frame(B, o)
     X = fr.own("X", B.arr("x", (N, D)))
@@ -111,9 +111,9 @@ def sc_gmm(B, trainer, dask):
     return o
 
 
-def sc_kmeans(B, dask, iters):
+def sc_kmeans(B, dask, iters, size=(2, 1, 3)):
     km = B.mod("kmeans")
-    K, D, N = 2, 1, 3
+    K, D, N = size
     o = Outcome()
     fr = Frame(B, o)
     X = fr.own("X", B.arr("x", (N, D)))
@@ -254,16 +254,16 @@ def sc_linear_tx(B, which):
     return o
 
 
-def job_gmm(P):
+def job_gmm(P, size=(2, 1, 3)):
     for tr in ("ml", "map"):
         for dask in (False, True):
-            P.run("gmm-%s-%s" % (tr, "dask" if dask else "numpy"), sc_gmm, dict(trainer=tr, dask=dask), validate=1)
+            P.run("gmm-%s-%s" % (tr, "dask" if dask else "numpy"), sc_gmm, dict(trainer=tr, dask=dask, size=size), validate=1)
 
 
-def job_kmeans(P):
+def job_kmeans(P, size=(2, 1, 3)):
     for dask in (False, True):
         for it in (1, 2):
-            P.run("kmeans-%s-it%d" % ("dask" if dask else "numpy", it), sc_kmeans, dict(dask=dask, iters=it), validate=1)
+            P.run("kmeans-%s-it%d" % ("dask" if dask else "numpy", it), sc_kmeans, dict(dask=dask, iters=it, size=size), validate=1)
 
 
 def job_misc(P):
@@ -280,4 +280,7 @@ def job_fa(P, kind):
 
 
 def jobs(tier):
-    return [("gmm", "job_gmm", {}), ("kmeans", "job_kmeans", {}), ("misc", "job_misc", {}), ("isv", "job_fa", dict(kind="isv")), ("jfa", "job_fa", dict(kind="jfa"))]
+    out = [("gmm", "job_gmm", {}), ("kmeans", "job_kmeans", {}), ("misc", "job_misc", {}), ("isv", "job_fa", dict(kind="isv")), ("jfa", "job_fa", dict(kind="jfa"))]
+    if tier == "thorough":
+        out += [("gmm@C2D2N3", "job_gmm", dict(size=(2, 2, 3))), ("gmm@C3D1N4", "job_gmm", dict(size=(3, 1, 4))), ("kmeans@K2D2N4", "job_kmeans", dict(size=(2, 2, 4))), ("kmeans@K3D1N3", "job_kmeans", dict(size=(3, 1, 3)))]
+    return out
